@@ -1124,6 +1124,47 @@ pub fn run_c09(st: &Shared, tier: Tier) -> RunReport {
         pool_info = info;
     }
 
+    // (a') the REAL rayon scheduler with a pool of exactly one thread.  A
+    // single worker thread makes the real scheduler deterministic, so this is
+    // the one pool configuration that needs no stub; it also is the only
+    // execution that goes through `ThreadPool::Custom` (rayon's `install`)
+    // and through whatever rayon primitives the code uses around the
+    // fan-out.  The result must equal the sequential one; a run that never
+    // returns is caught by the liveness watchdog.
+    {
+        let pool1 = ThreadPool::Custom(
+            rayon::ThreadPoolBuilder::new()
+                .num_threads(1)
+                .build()
+                .expect("rayon pool"),
+        );
+        REAL_POOL.with(|p| *p.borrow_mut() = Some(pool1));
+        let out = exec(st, &b, &work, Some(1), CancelPlan::Never);
+        rep.evaluations += 1;
+        rep.count("sched.real_rayon_single_thread_pool", 1);
+        match out {
+            Err(p) => rep.violate("C09", "panic_real_pool", p),
+            Ok(None) => rep.violate(
+                "C09",
+                "never_cancelled_none",
+                "real 1-thread pool returned None although never cancelled",
+            ),
+            Ok(Some(o)) => {
+                st.borrow_mut().log_digest("c09_real1", o.digest());
+                if o != reference {
+                    rep.violate(
+                        "C09",
+                        "real_single_thread_pool_differs_from_sequential",
+                        format!(
+                            "real rayon pool of one thread: {}",
+                            diff_summary(&o, &reference)
+                        ),
+                    );
+                }
+            }
+        }
+    }
+
     // (b) cancellation: no-pool and pool, drawn cancel instants
     for c in 0..3 {
         let pool = if c == 0 { None } else { Some(draw_pool(st)) };
